@@ -148,6 +148,17 @@ def run(rep):
         for plan in ([], [4096] * (len(data) // 4096 + 2), [65536] * (len(data) // 65536 + 2)):
             rcases.append(readcore.read_case(data, source=(0,), rplan=plan, consume=(0, 4096, 0)))
             meta.append((name, "crafted", plan[0] if plan else 0, (0, 4096, 0)))
+    # line-oriented decoders: cut at every line boundary and one byte either side (the decoder's end-of-input paths)
+    for name, arc in arcs:
+        if not (name.startswith("w:") and ("uuencode" in name or "b64encode" in name)):
+            continue
+        cuts = set()
+        for i, ch in enumerate(arc):
+            if ch == 10:
+                cuts.update((i, i + 1, i + 2))
+        for cut in sorted(c for c in cuts if 0 < c < len(arc))[: (400 if quick else 100000)]:
+            rcases.append(readcore.read_case(arc[:cut], source=(0,), rplan=[], consume=(0, 4096, 0)))
+            meta.append((name, "cut@%d" % cut, 0, (0, 4096, 0)))
     t0 = time.time()
     lines = run_resilient(rep, readall, rcases, meta, per_batch_timeout=600 if quick else 3000)
     flagged = 0
